@@ -34,6 +34,16 @@ def supported(d, cfg):
             groups = {}
             for r in m["table"]: groups.setdefault((r["src"], r["ev"]), []).append(r)
             if any(len(g) > 1 and any(r["ek"] != "plain" for r in g) for g in groups.values()): return False
+        # ... nor an entry point whose event has a chain in the entered submachine (the second half of the compound transition is
+        # dispatched with a const event)
+        for m in d.machines.values():
+            for r in m["table"]:
+                if r["ek"] != "entrypt": continue
+                sub = d.machines[r["tgt"]]
+                cnt = {}
+                for x in list(sub["table"]) + [y for st in sub["states"].values() for y in st["itab"]]:
+                    if x["ev"] == r["ev"]: cnt[x["src"]] = cnt.get(x["src"], 0) + 1
+                if any(v > 1 for v in cnt.values()): return False
     return True
 
 # ---------------------------------------------------------------- building
